@@ -38,10 +38,16 @@ impl Axecutor {
         debug_assert_eq!(i.code(), Shr_rm8_imm8);
 
         calculate_rm_imm![u8f; self; i; |d: u8, s:u8| {
-            assert_ne!(s, 1, "SHR r/m8, 1 should be handled by opcode SHR r/m8, 1");
-
             // Only the low bits of the count are used by the CPU
             let s = s & 0x1f;
+
+            if s == 1 {
+                // Same as the dedicated `SHR r/m8, 1` opcode, where the overflow flag is defined
+                let cf = if d & 0x01 != 0 { FLAG_CF } else {0};
+                // "OF flag is set to the most-significant bit of the original operand"
+                let of = if d & 0x80 != 0 { FLAG_OF } else {0};
+                return (d.wrapping_shr(1), cf | of);
+            }
 
             if s == 0 {
                 return (d, FLAGS_UNAFFECTED);
@@ -55,7 +61,7 @@ impl Axecutor {
                 }
                 None => (0, if s == 8 && d & 0x80 != 0 { FLAG_CF } else {0})
             }
-        }; (set: FLAG_PF | FLAG_ZF | FLAG_SF; clear: FLAG_CF)]
+        }; (set: FLAG_PF | FLAG_ZF | FLAG_SF; clear: FLAG_CF | FLAG_OF)]
     }
 
     /// SHR r/m16, imm8
@@ -65,10 +71,16 @@ impl Axecutor {
         debug_assert_eq!(i.code(), Shr_rm16_imm8);
 
         calculate_rm_imm![u16f; u8; self; i; |d: u16, s:u8| {
-            assert_ne!(s, 1, "SHR r/m16, 1 should be handled by opcode SHR r/m16, 1");
-
             // Only the low bits of the count are used by the CPU
             let s = s & 0x1f;
+
+            if s == 1 {
+                // Same as the dedicated `SHR r/m16, 1` opcode, where the overflow flag is defined
+                let cf = if d & 0x01 != 0 { FLAG_CF } else {0};
+                // "OF flag is set to the most-significant bit of the original operand"
+                let of = if d & 0x8000 != 0 { FLAG_OF } else {0};
+                return (d.wrapping_shr(1), cf | of);
+            }
 
             if s == 0 {
                 return (d, FLAGS_UNAFFECTED);
@@ -82,7 +94,7 @@ impl Axecutor {
                 }
                 None => (0, if s == 16 && d & 0x8000 != 0 { FLAG_CF } else {0})
             }
-        }; (set: FLAG_PF | FLAG_ZF | FLAG_SF; clear: FLAG_CF)]
+        }; (set: FLAG_PF | FLAG_ZF | FLAG_SF; clear: FLAG_CF | FLAG_OF)]
     }
 
     /// SHR r/m32, imm8
@@ -92,10 +104,16 @@ impl Axecutor {
         debug_assert_eq!(i.code(), Shr_rm32_imm8);
 
         calculate_rm_imm![u32f; u8; self; i; |d: u32, s:u8| {
-            assert_ne!(s, 1, "SHR r/m32, 1 should be handled by opcode SHR r/m32, 1");
-
             // Only the low bits of the count are used by the CPU
             let s = s & 0x1f;
+
+            if s == 1 {
+                // Same as the dedicated `SHR r/m32, 1` opcode, where the overflow flag is defined
+                let cf = if d & 0x01 != 0 { FLAG_CF } else {0};
+                // "OF flag is set to the most-significant bit of the original operand"
+                let of = if d & 0x8000_0000 != 0 { FLAG_OF } else {0};
+                return (d.wrapping_shr(1), cf | of);
+            }
 
             if s == 0 {
                 return (d, FLAGS_UNAFFECTED);
@@ -109,7 +127,7 @@ impl Axecutor {
                 }
                 None => (0, if s == 32 && d & 0x8000_0000 != 0 { FLAG_CF } else {0})
             }
-        }; (set: FLAG_PF | FLAG_ZF | FLAG_SF; clear: FLAG_CF)]
+        }; (set: FLAG_PF | FLAG_ZF | FLAG_SF; clear: FLAG_CF | FLAG_OF)]
     }
 
     /// SHR r/m64, imm8
@@ -119,10 +137,16 @@ impl Axecutor {
         debug_assert_eq!(i.code(), Shr_rm64_imm8);
 
         calculate_rm_imm![u64f; u8; self; i; |d: u64, s:u8| {
-            assert_ne!(s, 1, "SHR r/m64, 1 should be handled by opcode SHR r/m64, 1");
-
             // Only the low bits of the count are used by the CPU
             let s = s & 0x3f;
+
+            if s == 1 {
+                // Same as the dedicated `SHR r/m64, 1` opcode, where the overflow flag is defined
+                let cf = if d & 0x01 != 0 { FLAG_CF } else {0};
+                // "OF flag is set to the most-significant bit of the original operand"
+                let of = if d & 0x8000_0000_0000_0000 != 0 { FLAG_OF } else {0};
+                return (d.wrapping_shr(1), cf | of);
+            }
 
             if s == 0 {
                 return (d, FLAGS_UNAFFECTED);
@@ -136,7 +160,7 @@ impl Axecutor {
                 }
                 None => (0, if s == 64 && d & 0x8000_0000_0000_0000 != 0 { FLAG_CF } else {0})
             }
-        }; (set: FLAG_PF | FLAG_ZF | FLAG_SF; clear: FLAG_CF)]
+        }; (set: FLAG_PF | FLAG_ZF | FLAG_SF; clear: FLAG_CF | FLAG_OF)]
     }
 
     /// SHR r/m8, 1
